@@ -81,6 +81,27 @@ func c20Thread(seed uint64, nops int) string {
 					if err == nil {
 						d, _ := dumpDoc(pj2)
 						io.WriteString(h, d)
+						// edit the deserialized document and read it back
+						hh := &history{pj: pj2}
+						cc := &Ctx{}
+						for e := 0; e < 1+r.Intn(3); e++ {
+							if op := cc.pickEdit(r, hh, false); op != nil {
+								it := iterAt(pj2, op.K)
+								safeApply(op, &it)
+							}
+						}
+						if pos, perr := flatPositions(pj2, 400); perr == nil {
+							for _, p := range pos {
+								if p.IsValue && (p.Tag == simdjson.TagString || p.Tag == simdjson.TagInteger) {
+									it := iterAt(pj2, p.K)
+									it.SetString(fmt.Sprintf("edited-by-%d-%d", seed, k))
+									break
+								}
+							}
+						}
+						runtime.Gosched()
+						d2, _ := dumpDoc(pj2)
+						io.WriteString(h, "E"+d2)
 					}
 				}
 			}
